@@ -4,7 +4,8 @@
 
    [normalize parent r] is the reference normaliser (Url/Resolve.v): preprocessor.NormalizeURL
    followed by URL.String(), on URL ASTs of the reference grammar (Url/RefUrl.v); the model follows
-   the code after fixes/C09-query-order.diff and fixes/C09-base-choice.diff, the code as found is
+   the code after /repo commits 8ac6930 (fixes/C09-query-order.diff) and ce05a6f
+   (fixes/C09-base-choice.diff), the code as found is
    [reencode_orig] / [normalize_orig]. *)
 From Coq Require Import List Ascii String NArith Bool Permutation.
 From ZenoV Require Import Lib.Hex Url.Escape Url.EscapeProofs Url.Query Url.QueryProofs
